@@ -43,6 +43,14 @@ def _shapes(tier):
                 for final in (0, 1):
                     for fk, ks in ((1, 1), (1, 2), (2, 1), (3, 1)):
                         out.append((M, tuple(lens), opening, 1, final, ks, 0, fk))
+    # invisible barlines (=2-) inside the score: they delimit measures and fragments like any other barline
+    for M in (2, 3):
+        for lens in ((1,) * M, (2, 1, 0)[:M]):
+            for opening in (0, 1):
+                for pickup in (0, 1):
+                    for final in (0, 1):
+                        for hb in (16, 32):
+                            out.append((M, tuple(lens), opening, pickup, final, 1, 0, 0, hb))
     return out
 
 
